@@ -175,6 +175,52 @@ func listing(dynamic bool) {
 	}
 }
 
+// ListingWhileCreating: an account is created through Dirk while another client is listing the same
+// wallet (every interleaving within the bound); once both calls have returned, a listing shows the
+// new account (and still shows every other one).
+func ListingWhileCreating() {
+	vsym.ForbidCrash()
+	ctx := context.Background()
+	w := newWorld(ctx)
+	w.create(ctx, "Wallet1", "acc1")
+	w.create(ctx, "Wallet1", "acc2")
+	fetcher, err := memfetcher.New(ctx, memfetcher.WithStores([]e2wtypes.Store{w.store}), memfetcher.WithEncryptor(w.enc))
+	hc.Must(err)
+	ck := &stubs.Checker{L: w.log, Deny: func(client, account, op string) bool {
+		allowed, known := w.perm[account]
+		return !known || !allowed || op != ruler.ActionAccessAccount || client != "client1"
+	}}
+	rs := hc.NewRules(ctx, vsym.TempDir("A"))
+	ls, err := standardlister.New(ctx, standardlister.WithChecker(ck), standardlister.WithFetcher(fetcher), standardlister.WithRuler(hc.NewRuler(ctx, rs)))
+	hc.Must(err)
+	h, err := listerhandler.New(ctx, listerhandler.WithLister(ls))
+	hc.Must(err)
+	// one account was already created after start-up; a second one is being created now
+	a9 := w.create(ctx, "Wallet1", "acc9")
+	hc.Must(fetcher.AddAccount(ctx, w.wallets["Wallet1"], a9))
+	a8 := w.create(ctx, "Wallet1", "acc8")
+	cctx := context.WithValue(ctx, &interceptors.ClientName{}, "client1")
+	req := []string{"Wallet1"}
+	vsym.Explore(2)
+	vsym.Spawn(func() { _, _ = h.ListAccounts(cctx, &pb.ListAccountsRequest{Paths: req}) })
+	vsym.Spawn(func() { hc.Must(fetcher.AddAccount(ctx, w.wallets["Wallet1"], a8)) })
+	vsym.Join()
+	vsym.Sequential()
+	res, err := h.ListAccounts(cctx, &pb.ListAccountsRequest{Paths: req})
+	vsym.Assert("L0-listing-answers", err == nil && res != nil)
+	if err != nil || res == nil {
+		return
+	}
+	vsym.Reach("listed-after-concurrent-create")
+	listed := map[string]bool{}
+	for _, a := range res.GetDistributedAccounts() {
+		listed[a.GetName()] = true
+	}
+	for full := range w.keys {
+		vsym.Assert("L3-listed-iff-requested-matching-and-permitted", listed[full] == w.expected(full, req))
+	}
+}
+
 func ListingAtStartUp()          { listing(false) }
 func ListingAfterDynamicCreate() { listing(true) }
 
